@@ -190,7 +190,8 @@ func c08GenConfig(r *rand.Rand, h *scen.History, k int) c08Config {
 }
 
 func runC08(c *fw.Ctx) {
-	n := c.Pick(1500, 30000) / c.NShards
+	c08RecoveryPatterns(c)
+	n := c.Pick(1000, 30000) / c.NShards
 	r := c.Rand(uint64(800 + c.Shard))
 	for i := 0; i < n; i++ {
 		h := genHistory(r, histOpts{Len: 5 + r.IntN(14)})
@@ -211,6 +212,42 @@ func runC08(c *fw.Ctx) {
 		// no persistent cache but earlier verifications / warm process cache
 		cfgs = append(cfgs, c08GenConfig(r, h, -1))
 		c08Judge(c, h, cfgs)
+	}
+}
+
+// c08RecoveryPatterns feeds the C07 flag patterns (violations, revocations,
+// fixes, unrevoked intermediates) through the cache configurations: recovery is
+// where the verifier records checkpoints in the middle of a run.
+func c08RecoveryPatterns(c *fw.Ctx) {
+	idx := 0
+	stride := c.Pick(3, 1)
+	for L := 1; L <= 3; L++ {
+		total := 1
+		for i := 0; i < L; i++ {
+			total *= 12
+		}
+		for code := 0; code < total; code++ {
+			mine := c.Mine(idx)
+			idx++
+			if !mine || idx%stride != 0 {
+				continue
+			}
+			flags := make([]c07Flag, L)
+			x := code
+			for i := range flags {
+				d := x % 12
+				x /= 12
+				flags[i] = c07Flag{Outsider: d%2 == 1, B: (d/2)%2 == 1, Skip: d / 4}
+			}
+			r := c.Rand(uint64(8100000 + idx))
+			h := c07Build(r, flags, false)
+			cfgs := []c08Config{
+				{PopulateAt: len(h.Events)},                                        // complete index, verification repeated
+				{PopulateAt: 2 + r.IntN(len(h.Events)-1)},                          // populated earlier
+				{PopulateAt: len(h.Events), Steps: []string{"-1:full:" + refMain}}, // a full run first (may fail half way)
+			}
+			c08Judge(c, h, cfgs)
+		}
 	}
 }
 
@@ -336,7 +373,7 @@ func c08IndexClass(h *scen.History, cfg c08Config) string {
 
 var (
 	c08NeedsGit  bool
-	c08GitBudget = 2
+	c08GitBudget = 1
 	c08GitSeen   = map[string]bool{}
 )
 
@@ -344,7 +381,7 @@ var (
 // real git; the memstore observation only stands if real git shows a
 // difference too.
 func c08OnGit(c *fw.Ctx, h *scen.History, cfg c08Config) {
-	if c08GitBudget <= 0 {
+	if c08GitBudget <= 0 || (c.Quick() && c.Shard%4 != 0) {
 		return
 	}
 	c08GitBudget--
